@@ -71,6 +71,13 @@ def dyn_spec():
                                  "responses": {"200": {"description": "ok", "content": J(R("Echo"))}, "400": {"description": "bad"}}}},
         "/text": {"get": {"operationId": "get_text", "parameters": [want], "responses": {"200": {"description": "ok", "content": {"text/plain": {"schema": S}}},
                                                                                        "202": {"description": "acc", "content": {"application/octet-stream": {"schema": {"type": "string", "format": "binary"}}}}}}},
+        # the same payload type (String) under two media types, in two operations with equal status sets
+        "/note/title": {"get": {"operationId": "get_title", "responses": {"200": {"description": "ok", "content": J(S)}, "404": {"description": "nf"}}}},
+        "/note/text": {"get": {"operationId": "get_body_text", "responses": {"200": {"description": "ok", "content": {"text/plain": {"schema": S}}}, "404": {"description": "nf"}}}},
+        # enum-typed header values written with capitals
+        "/export": {"get": {"operationId": "get_export", "parameters": [P("X-Format", "header", {"type": "string", "enum": ["JSON", "Parquet", "csv"]}),
+                                                                        P("X-Parts", "header", {"type": "array", "items": {"type": "string", "enum": ["Totals", "rows", "HEAD"]}})],
+                            "responses": {"200": {"description": "ok", "content": J(R("Echo"))}, "406": {"description": "no"}}}},
         "/form": {"post": {"operationId": "post_form", "requestBody": {"required": True, "content": {"application/x-www-form-urlencoded": {"schema": {"type": "object", "properties": {"a": S, "b": I}}}}},
                            "responses": {"200": {"description": "ok", "content": J(R("Echo"))}, "413": {"description": "big"}}}},
         "/opt": {"post": {"operationId": "post_opt", "requestBody": {"content": J(R("Item"))}, "responses": {"200": {"description": "ok", "content": J(R("Echo"))}, "410": {"description": "gone"}}}},
@@ -132,6 +139,19 @@ impl S::ApiServer for Svc {
             Some("bin") => Ok(S::GetTextResponse::Accepted(vec![1u8, 2, 255])),
             _ => Ok(S::GetTextResponse::Ok("plain \u{fc}".to_string())),
         }
+    }
+    async fn get_title(&self, _r: S::GetTitleRequest) -> anyhow::Result<S::GetTitleResponse> {
+        self.note("get_title");
+        Ok(S::GetTitleResponse::Ok("Groceries \"weekly\"".to_string()))
+    }
+    async fn get_body_text(&self, _r: S::GetBodyTextRequest) -> anyhow::Result<S::GetBodyTextResponse> {
+        self.note("get_body_text");
+        Ok(S::GetBodyTextResponse::Ok("Groceries \"weekly\"".to_string()))
+    }
+    async fn get_export(&self, r: S::GetExportRequest) -> anyhow::Result<S::GetExportResponse> {
+        self.note("get_export");
+        Ok(S::GetExportResponse::Ok(echo(format!("format={} parts={}", r.header.x_format.map(|f| f.to_string()).unwrap_or("-".to_string()),
+            r.header.x_parts.map(|p| p.iter().map(|x| x.to_string()).collect::<Vec<_>>().join("+")).unwrap_or("-".to_string())))))
     }
     async fn post_form(&self, r: S::PostFormRequest) -> anyhow::Result<S::PostFormResponse> {
         self.note("post_form");
@@ -213,6 +233,11 @@ def dyn_probes():
         ("POST", "/form", [], ("application/x-www-form-urlencoded", b""), dict(status=200, calls=["post_form"], json=E("a=None b=None"))),
         ("POST", "/opt", [], js({"name": "z"}), dict(status=200, calls=["post_opt"], json=E('body=Some(("z", None))'))),
         ("POST", "/opt", [], None, dict(status=200, calls=["post_opt"], json=E("body=None"))),
+        ("GET", "/note/title", [], None, dict(status=200, calls=["get_title"], json='Groceries "weekly"')),
+        ("GET", "/note/text", [], None, dict(status=200, calls=["get_body_text"], text='Groceries "weekly"', ctype="text/plain")),
+        ("GET", "/export", [("X-Format", "JSON"), ("X-Parts", "Totals,rows,HEAD")], None, dict(status=200, calls=["get_export"], json=E("format=JSON parts=Totals+rows+HEAD"))),
+        ("GET", "/export", [("X-Format", "Parquet")], None, dict(status=200, calls=["get_export"], json=E("format=Parquet parts=-"))),
+        ("GET", "/export", [("X-Format", "csv"), ("X-Parts", "rows")], None, dict(status=200, calls=["get_export"], json=E("format=csv parts=rows"))),
         # undeclared paths and methods: no handler, 404 / 405
         ("GET", "/nope", [], None, dict(status=404, calls=[])),
         ("GET", "/items/abc/extra", [], None, dict(status=404, calls=[])),
